@@ -50,6 +50,7 @@ type NamedDecl struct {
 
 type Program struct {
 	Named []*NamedDecl // index = id
+	Funcs []*FuncDecl  // custom functions and struct methods, index = function id
 }
 
 func tBasic(k int) *Ty            { return &Ty{K: "basic", Kind: k} }
@@ -141,8 +142,14 @@ func (p *Program) coqTy(t *Ty) string {
 func (p *Program) coqEnv() string {
 	var ds []string
 	for _, d := range p.Named {
-		ds = append(ds, fmt.Sprintf("{| n_pkg := %d; n_pkgname := %s; n_name := %s; n_under := %s; n_enum := %s; n_methods := [] |}",
-			d.Pkg, runes(pkgNames[d.Pkg]), runes(d.Name), p.coqTy(d.Under), coqBool(d.Enum)))
+		var ms []string
+		for _, f := range p.Funcs {
+			if f.Recv != nil && f.Recv.ID == d.ID {
+				ms = append(ms, "("+runes(f.Name)+", "+p.coqTy(f.Tgt)+")")
+			}
+		}
+		ds = append(ds, fmt.Sprintf("{| n_pkg := %d; n_pkgname := %s; n_name := %s; n_under := %s; n_enum := %s; n_methods := %s |}",
+			d.Pkg, runes(pkgNames[d.Pkg]), runes(d.Name), p.coqTy(d.Under), coqBool(d.Enum), coqList(ms)))
 	}
 	return coqList(ds)
 }
@@ -231,9 +238,17 @@ func (p *Program) declsSource(pkg int) string {
 		}
 		body.WriteString("\n")
 	}
+	ms := p.methodsSource(pkg)
+	if strings.Contains(ms, "q.") && pkg != 2 {
+		needQ = true
+	}
 	if needQ && pkg != 2 {
 		fmt.Fprintf(&sb, "import q %q\n\n", pkgPaths[2])
 	}
+	if ms != "" {
+		fmt.Fprintf(&sb, "import sup %q\n\n", "example.org/m/sup")
+	}
 	sb.WriteString(body.String())
+	sb.WriteString(ms)
 	return sb.String()
 }
